@@ -43,6 +43,9 @@ class World(object):
         self.depth = 0
         self.deliveries = 0
         self.rec = rec
+        # contexts that outlive the subscription: the listener is bound to the mapping itself, so what it receives is the
+        # mapping's content at delivery time (two start empty, one does not)
+        self.shared = [{}, {}, {'s': 0}]
         self.cbs = []
         for i in range(NCB):
             kind = i % 4
@@ -65,6 +68,13 @@ class World(object):
     def cb(self, i):
         return self.cbs[i]()
 
+    def ctx(self, spec):
+        if spec is None:
+            return None
+        if spec and spec[0] == 'shared':
+            return self.shared[spec[1]]
+        return dict(spec)
+
     def deliver(self, i, args, ctx):
         self.deliveries += 1
         self.log.append((i, args, tuple(sorted(ctx.items()))))
@@ -81,9 +91,16 @@ class World(object):
             if self.rec is not None:
                 self.rec.count('ops.%s%s' % (kind, '.nested%d' % (self.depth - 1) if nested else ''))
             if kind == 'on':
-                r = self.t.on(name, self.cb(act[2]), dict(act[3]) if act[3] is not None else None)
+                r = self.t.on(name, self.cb(act[2]), self.ctx(act[3]))
             elif kind == 'once':
-                r = self.t.once(name, self.cb(act[2]), dict(act[3]) if act[3] is not None else None)
+                r = self.t.once(name, self.cb(act[2]), self.ctx(act[3]))
+            elif kind == 'ctx':
+                # the host changes a context mapping it passed (or will pass) when subscribing; act = ('ctx', j, key, value)
+                if act[3] is None:
+                    self.shared[name].pop(act[2], None)
+                else:
+                    self.shared[name][act[2]] = act[3]
+                r = self.t
             elif kind == 'off':
                 r = self.t.off(name) if act[2] is None else self.t.off(name, self.cb(act[2]))
             else:
@@ -103,10 +120,12 @@ def cb_index(fn):
 
 def gen_history(rnd, maxlen):
     def ract(allow_emit=True):
-        k = rnd.choice(['on', 'on', 'once', 'once', 'off', 'emit', 'emit', 'emit'] if allow_emit else ['on', 'once', 'off', 'off'])
+        k = rnd.choice(['on', 'on', 'once', 'once', 'off', 'emit', 'emit', 'emit', 'ctx'] if allow_emit else ['on', 'once', 'off', 'off', 'ctx'])
         n = rnd.choice(NAMES)
+        if k == 'ctx':
+            return (k, rnd.randrange(3), rnd.choice(['k', 's', 'q']), rnd.choice([None, 1, 2, 'w']))
         if k in ('on', 'once'):
-            return (k, n, rnd.randrange(NCB), rnd.choice([None, None, (('k', 1),), (('q', 2), ('z', 'w'))]))
+            return (k, n, rnd.randrange(NCB), rnd.choice([None, None, (('k', 1),), (('q', 2), ('z', 'w')), (), ('shared', 0), ('shared', 1), ('shared', 2)]))
         if k == 'off':
             return (k, n, rnd.choice([None] + list(range(NCB))))
         return (k, n, tuple(rnd.randrange(10) for _ in range(rnd.randint(0, 2))))
@@ -123,10 +142,13 @@ class Check(BaseCheck):
     TITLE = 'Event emitter: ordered delivery, exact unsubscription, once means once'
     TECHNIQUE = 'history + executable reference model in lock-step; icontract class invariant on the real Emitter'
     RULE = ('case = one seeded history of 1-40 on/once/off/emit operations over 3 names and 6 callbacks (functions, lambdas, '
-            'bound methods, callable objects, duplicates, contexts), callbacks scripted to on/once/off/emit during delivery to depth 3; '
+            'bound methods, callable objects, duplicates; contexts omitted, empty, literal, or one of three host-held mappings that the '
+            'history keeps changing after subscribing), callbacks scripted to on/once/off/emit during delivery to depth 3; '
             'non-trivial = at least one listener was delivered to and the history is not in the ambiguous class; distinct = distinct '
             '(history, scripts).')
-    ASSUMPTIONS = ('a once-listener served by a nested emit while still in an outer snapshot is left unspecified by the statement; '
+    ASSUMPTIONS = ('"their bound context" is read as the mapping object passed when subscribing (as the code binds it): a listener receives that '
+                   'mapping\'s content at delivery time',
+                   'a once-listener served by a nested emit while still in an outer snapshot is left unspecified by the statement; '
                    'histories reaching that state are judged only up to that operation',
                    'callbacks that raise, falsy callables and callbacks carrying an attribute "_" are outside the statement')
 
@@ -229,6 +251,9 @@ class Check(BaseCheck):
             ([('once', 'a', 2, None), ('once', 'a', 2, None), ('emit', 'a', ()), ('emit', 'a', ())], {}),
             ([('off', 'b', 3), ('off', 'b', None), ('emit', 'b', ())], {}),
             ([('on', 'a', 0, None), ('on', 'a', 1, None), ('on', 'a', 0, None), ('off', 'a', 1), ('emit', 'a', (7,))], {}),
+            ([('on', 'a', 0, ('shared', 0)), ('ctx', 0, 'k', 1), ('emit', 'a', ()), ('ctx', 0, 'k', None), ('emit', 'a', ())], {}),
+            ([('once', 'a', 1, ('shared', 1)), ('ctx', 1, 'q', 'w'), ('emit', 'a', ())], {}),
+            ([('on', 'a', 0, None), ('on', 'a', 1, ('shared', 0)), ('emit', 'a', ())], {0: [('ctx', 0, 'k', 2)]}),
         ]
         for hist, scripts in hs:
             self.one(rec, hist, scripts, Emitter, 'emitter')
